@@ -24,9 +24,12 @@ PEER = '10.0.0.2'
 
 
 class FakePeer(object):
-    class factory(object):
-        peer_addr = PEER
     msg_recv_stat = {'Keepalives': 2}
+
+    def __init__(self):
+        class factory(object):
+            peer_addr = P.get('peer', PEER)
+        self.factory = factory
 
 
 def new_handler(fs, maxsize, write_keepalive=True):
@@ -37,7 +40,7 @@ def new_handler(fs, maxsize, write_keepalive=True):
     conf.set_override('write_disk', True, group='message')
     conf.set_override('write_dir', '/data/bgp/', group='message')
     conf.set_override('write_keepalive', write_keepalive, group='message')
-    conf.bgp.running_config = {'remote_addr': PEER}
+    conf.bgp.running_config = {'remote_addr': P.get('peer', PEER)}
 
     class M(object):
         write_disk = True
@@ -59,6 +62,9 @@ def fire(h, ev, i):
     msg = {'attr': {1: 0, 5: i}, 'nlri': ['10.%d.0.0/16' % i], 'withdraw': []}
     if ev == 'update':
         h.update_received(p, 1.5 + i, msg)
+    elif ev == 'big_update':
+        big = {'attr': {1: 0, 5: i}, 'nlri': ['10.%d.%d.0/24' % (j // 256, j % 256) for j in range(400)], 'withdraw': []}
+        h.update_received(p, 1.5 + i, big)
     elif ev == 'update_error':
         h.on_update_error(p, 1.5 + i, msg)
     elif ev == 'keepalive':
@@ -76,16 +82,16 @@ def fire(h, ev, i):
     elif ev == 'conn_lost':
         h.on_connection_lost(p)
     elif ev == 'conn_failed':
-        h.on_connection_failed(PEER, 'Connection refused')
+        h.on_connection_failed(P.get('peer', PEER), 'Connection refused')
     elif ev == 'established':
-        h.on_established(PEER, 1.0)
+        h.on_established(P.get('peer', PEER), 1.0)
     else:
         raise AssertionError(ev)
 
 
 def audit(fs):
     """every line a complete JSON object with the documented keys; seq 1, 2, 3, ... across files in name order"""
-    names = sorted(n for n in fs.files if n.startswith('/data/bgp/%s/msg/' % PEER))
+    names = sorted(n for n in fs.files if n.startswith('/data/bgp/%s/msg/' % P.get('peer', PEER).lower()))
     expect = 1
     for n in names:
         data = fs.files[n]
@@ -142,7 +148,7 @@ def ob_log(n: int, k: int, maxsize: int) -> bool:
         except fakefs.Crash:
             cover('crashed')
     # ---- a new process starts on whatever is on disk ------------------------------------------------------
-    names = sorted(nm for nm in fs.files if nm.startswith('/data/bgp/%s/msg/' % PEER))
+    names = sorted(nm for nm in fs.files if nm.startswith('/data/bgp/%s/msg/' % P.get('peer', PEER).lower()))
     newest = fs.files[names[-1]] if names else ''
     known('torn-tail-at-restart', newest != '' and not newest.endswith('\n'))
     known('newest-file-empty-after-rotation', len(names) > 1 and newest == '')
@@ -170,6 +176,15 @@ def obligations(tier, seed):
         'drops': ['update', 'conn_lost', 'conn_failed', 'established', 'update'],
     }
     afters = {'two': ['update', 'keepalive'], 'none': [], 'one': ['conn_lost']}
+    # a peer address written with upper-case hex digits (the log directory is the lower-cased address), and a record
+    # larger than 4 KiB as the last line before the restart
+    for rotate in (False, True):
+        out.append(ob('C20/restart/updates/upper-case-peer/rotate=%s' % rotate, 'ob_log',
+                      {'events': patterns['updates'], 'after': ['update', 'keepalive'], 'mode': 'restart', 'rotate': rotate,
+                       'peer': '2001:DB8::1'}, covers=['restarted'], cap=280 if quick else 800))
+        out.append(ob('C20/restart/big-record/rotate=%s' % rotate, 'ob_log',
+                      {'events': ['update', 'big_update', 'update', 'big_update'], 'after': ['update', 'keepalive'],
+                       'mode': 'restart', 'rotate': rotate}, covers=['restarted'], cap=280 if quick else 800))
     for pname, evs in patterns.items():
         for aname, aft in afters.items():
             if quick and aname == 'one' and pname != 'updates':
